@@ -141,6 +141,17 @@ theorem lor_ofBool (a b : Bool) : lor (O.ofBool a) (O.ofBool b) = .ok (O.ofBool 
 theorem finish_ofBool (s : ContSpec) (b : Bool) : finish s (O.ofBool b) = .ok b := by cases b <;> rfl
 theorem captured_ok (c : Bool) (b : Bool) : captured c (.ok b) = .ok (O.ofBool b) := rfl
 
+theorem contFrame_and (s : ContSpec) (h1 : s.sizeTestEq = true) (h2 : s.connAnd = true) (sz b : Bool) (fold : PyM O)
+    (hf : sz = true → fold = .ok (O.ofBool b)) : contFrame s sz fold = .ok (sz && b) := by
+  cases sz
+  · simp [contFrame, h1, h2]
+  · simp [contFrame, h1, h2, hf rfl, bind, Except.bind, finish_ofBool]
+theorem contFrame_or (s : ContSpec) (h1 : s.sizeTestEq = false) (h2 : s.connAnd = false) (sz b : Bool) (fold : PyM O)
+    (hf : sz = true → fold = .ok (O.ofBool b)) : contFrame s sz fold = .ok (!sz || b) := by
+  cases sz
+  · simp [contFrame, h1, h2]
+  · simp [contFrame, h1, h2, hf rfl, bind, Except.bind, finish_ofBool]
+
 /-- what the induction gives for one element -/
 def ElemSpec (x : Val) : Prop :=
   ∀ y, sameType x y = true →
@@ -262,9 +273,31 @@ theorem holds_eq_cmpSeq (a b : List Nat) : RelOp.holds .eq (cmpSeq a b) = decide
   · have : cmpSeq a b ≠ .eq := fun hc => h ((cmpSeq_eq_iff a b).mp hc)
     cases hc : cmpSeq a b <;> simp_all [RelOp.holds]
 
+theorem keysOfCls_mem (c : Key) : (m : List (Key × Val)) → keysOfCls c m = true → ∀ kv ∈ m, kv.1.sameCls c = true
+  | [], _, _, h => by cases h
+  | (k, v) :: rest, hk, kv, h => by
+      simp only [keysOfCls, Bool.and_eq_true] at hk
+      rcases List.mem_cons.mp h with h | h
+      · subst h; exact hk.1
+      · exact keysOfCls_mem c rest hk.2 kv h
+
 theorem keys_sameCls_of_sameType (m1 m2 : List (Key × Val)) (h : sameType (.map m1) (.map m2) = true) :
     ∀ kv ∈ m1, ∀ kv' ∈ m2, kv'.1.sameCls kv.1 = true := by
-  sorry
+  intro kv hkv kv' hkv'
+  cases m1 with
+  | nil => cases hkv
+  | cons kv0 rest =>
+    obtain ⟨k0, v0⟩ := kv0
+    simp only [sameType, Bool.and_eq_true] at h
+    have a := keysOfCls_mem k0 _ h.1.1 kv hkv
+    have b := keysOfCls_mem k0 _ h.1.2 kv' hkv'
+    rw [Key.sameCls_symm] at a
+    exact Key.sameCls_trans _ _ _ b a
+
+theorem sameTypeMap_of_sameType (m1 m2 : List (Key × Val)) (h : sameType (.map m1) (.map m2) = true) :
+    sameTypeMap m1 m2 = true := by
+  simp only [sameType, Bool.and_eq_true] at h
+  exact h.2
 
 theorem rel_spec (a : Val) : ElemSpec a := by
   refine Val.ind ?_ ?_ ?_ ?_ a
@@ -281,11 +314,66 @@ theorem rel_spec (a : Val) : ElemSpec a := by
   · intro m1 ih y hs
     cases y <;> simp [sameType] at hs
     rename_i m2
-    sorry
+    have hs' : sameType (.map m1) (.map m2) = true := by simp [sameType, hs]
+    have hk := keys_sameCls_of_sameType m1 m2 hs'
+    have hsm := sameTypeMap_of_sameType m1 m2 hs'
+    have e1 : pyRel cmpSpecs .eq (.map m1) (.map m2) =
+        (do let ke ← keysEq m1 m2
+            contFrame mapEqSpec ke (mapFold cmpSpecs mapEqSpec (O.ofBool true) m1 m2)) := rfl
+    have e2 : pyRel cmpSpecs .ne (.map m1) (.map m2) =
+        (do if mapNeSpec.singleton && m1.length == 1 && m2.length == 1 && (← keysEq m1 m2) then
+              mapSingle cmpSpecs mapNeSpec m1 m2
+            else do
+              let ke ← keysEq m1 m2
+              contFrame mapNeSpec ke (mapFold cmpSpecs mapNeSpec (O.ofBool false) m1 m2)) := rfl
+    rw [e1, e2, keysEq_spec m1 m2 hk]
+    simp only [bind, Except.bind]
+    cases hf : allFound m1 m2
+    · -- some key of m1 is missing in m2
+      have hne := eqSpecMap_notFound m1 m2 hf
+      constructor
+      · rw [contFrame_and mapEqSpec rfl rfl _ true _ (by simp)]; simp [eqSpec, hne]
+      · rw [contFrame_or mapNeSpec rfl rfl _ false _ (by simp)]; simp [eqSpec, hne]
+    · have f1 := mapFold_eq mapEqSpec rfl rfl m2 m1 true ih hk hsm hf
+      have f2 := mapFold_ne mapNeSpec rfl rfl m2 m1 false ih hk hsm hf
+      constructor
+      · rw [contFrame_and mapEqSpec rfl rfl _ (eqSpecMap m1 m2) _ (fun _ => by simpa using f1)]; simp [eqSpec]
+      · have gen : contFrame mapNeSpec (m1.length == m2.length && true)
+            (mapFold cmpSpecs mapNeSpec (O.ofBool false) m1 m2) = .ok (!eqSpec (.map m1) (.map m2)) := by
+          rw [contFrame_or mapNeSpec rfl rfl _ (!eqSpecMap m1 m2) _ (fun _ => by simpa using f2)]; simp [eqSpec]
+        by_cases h1 : (mapNeSpec.singleton && m1.length == 1 && m2.length == 1 && (m1.length == m2.length && true)) = true
+        · rw [if_pos h1]
+          simp only [Bool.and_eq_true, beq_iff_eq] at h1
+          match m1, h1.1.1.2 with
+          | [(k, v)], _ =>
+            simp only [allFound, Bool.and_true] at hf
+            obtain ⟨w, hw⟩ := Option.isSome_iff_exists.mp hf
+            have hlk := lookup_eq_find k m2 (hk (k, v) (List.mem_cons_self ..))
+            simp only [sameTypeMap, hw, Bool.and_true] at hsm
+            have hx := (ih (k, v) (List.mem_cons_self ..) w hsm).2
+            have hl2 := h1.1.2
+            simp [mapSingle, hlk, hw, bind, Except.bind, hx, eqSpec, eqSpecMap, hl2, mapNeSpec]
+        · rw [if_neg h1]; exact gen
   · intro xs _ y hs
     simp [sameType] at hs
-  · intro v _ y hs
-    cases v <;> cases y <;> simp [sameType] at hs <;> sorry
+  · intro v hleaf y hs
+    unfold sameType at hs
+    split at hs <;> try (simp at hs; done)
+    all_goals first
+      | exact ⟨by rw [show pyRel cmpSpecs .eq _ _ = .ok (RelOp.holds .eq (cmpInt _ _)) from rfl, holds_eq_cmpInt]; rfl,
+               by rw [show pyRel cmpSpecs .ne _ _ = .ok (RelOp.holds .ne (cmpInt _ _)) from rfl, holds_ne, holds_eq_cmpInt]; rfl⟩
+      | exact ⟨by rw [show pyRel cmpSpecs .eq _ _ = .ok (RelOp.holds .eq (cmpBool _ _)) from rfl, holds_eq_cmpBool]; rfl,
+               by rw [show pyRel cmpSpecs .ne _ _ = .ok (RelOp.holds .ne (cmpBool _ _)) from rfl, holds_ne, holds_eq_cmpBool]; rfl⟩
+      | exact ⟨by rw [show pyRel cmpSpecs .eq _ _ = .ok (RelOp.holds .eq (cmpSeq _ _)) from rfl, holds_eq_cmpSeq]; rfl,
+               by rw [show pyRel cmpSpecs .ne _ _ = .ok (RelOp.holds .ne (cmpSeq _ _)) from rfl, holds_ne, holds_eq_cmpSeq]; rfl⟩
+      | exact ⟨rfl, rfl⟩
+      | (simp [Val.isLeaf] at hleaf; done)
+      | skip
+    rename_i d1 d2
+    cases d1 <;> cases d2 <;> first
+      | exact ⟨rfl, rfl⟩
+      | exact ⟨by rw [show pyRel cmpSpecs .eq _ _ = .ok (RelOp.holds .eq (cmpInt _ _)) from rfl, holds_eq_cmpInt]; rfl,
+               by rw [show pyRel cmpSpecs .ne _ _ = .ok (RelOp.holds .ne (cmpInt _ _)) from rfl, holds_ne, holds_eq_cmpInt]; rfl⟩
 
 
 end Cel
